@@ -28,7 +28,7 @@ def gen_items(rng, depth=0, maxlen=4):
         elif r < 0.45:
             items.append(["read"])
         elif r < 0.6:
-            items.append(["arith", rng.choice(["array", "negative"])])
+            items.append(["arith", rng.choice(["array", "negative", "negative_nan", "array_mul"])])
         elif depth < 3:
             body = gen_items(rng, depth + 1, maxlen=3)
             items.append(["with", rng.random() < 0.6, body, rng.random() < 0.35])   # value, body, body raises at its end
@@ -94,6 +94,11 @@ def do_arith(how):
             if how == "array":
                 h = Histogram1D([0, 1, 2], [1, 2])
                 h + np.ones(2)
+            elif how == "array_mul":
+                h = Histogram1D([0, 1, 2], [1, 2])
+                h *= [2, 3]
+            elif how == "negative_nan":
+                Histogram1D([0, 1, 2, 3], [float("nan"), -1, 2])
             else:
                 Histogram1D([0, 1, 2], [-1, 2])
         return True
